@@ -12,7 +12,9 @@ Model: `Model.StoreWrite`; lemmas: `Proofs.StoreWrite`, `Proofs.StoreHist`; sour
 Trusted: as for C12 (SQL engine semantics, ULID monotonicity); clocks are the timestamps of the history (`Nat`).
 -/
 import OpenFGAVerif.Proofs.StoreHist
+import OpenFGAVerif.Proofs.StoreChanges
 import OpenFGAVerif.Gen.StoreWrite
+import OpenFGAVerif.Gen.StoreChanges
 
 set_option linter.unusedSimpArgs false
 
@@ -348,6 +350,119 @@ theorem backends_read_alike (s : StoreState) (hi : Inv s) (t : Nat) (hts : TsInv
     unfold memReadChanges
     rw [horizon_break_is_filter typ now horizon s.changes hts.1, hf]
     simp
+
+/-! ## reading page by page with a horizon: the horizon travels with every page -/
+
+section PagedHorizon
+open OpenFGAVerif.Model.StoreChanges OpenFGAVerif.Proofs.StoreChanges
+
+/-- ReadChangesQuery.Execute builds its ReadChangesFilter in one top-level statement with `HorizonOffset: q.horizonOffset`,
+    nothing else assigns the filter, and that filter goes to the datastore — on a first page and on a continuation
+    alike; ErrNotFound answers with the request's own token; the option stores the configured minutes and the server
+    passes its configuration -/
+theorem tie_query_horizon_every_page :
+    Gen.StoreChanges.rcFilterLiteral = ["ObjectType: req.GetType()", "HorizonOffset: q.horizonOffset"] ∧
+    Gen.StoreChanges.rcFilterTopLevel = true ∧ Gen.StoreChanges.rcFilterAssignments = [] ∧
+    Gen.StoreChanges.rcBackendCall = "q.backend.ReadChanges(ctx, req.GetStoreId(), filter, opts)" ∧
+    Gen.StoreChanges.rcHorizonEveryPage = true ∧ Gen.StoreChanges.rcNotFoundKeepsToken = true ∧
+    Gen.StoreChanges.rcHorizonOption = "rq.horizonOffset = time.Duration(horizonOffset) * time.Minute" ∧
+    Gen.StoreChanges.rcServerPassesHorizon = true := by
+  refine ⟨?_, ?_, ?_, ?_, ?_, ?_, ?_, ?_⟩ <;> rfl
+
+/-- both datastores apply the horizon they are given on every call, with or without token: memory tests it inside the
+    scan loop before the token test (type, horizon → break, token → continue, append; under the read lock), sqlite has it
+    in the base query — only the type, token and limit clauses are conditional -/
+theorem tie_backends_horizon_every_call :
+    Gen.StoreChanges.memScanLoop = ["0:type", "1:horizon->break", "1:from", "1:append"] ∧
+    Gen.StoreChanges.memReadLock = true ∧ Gen.StoreChanges.sqlHorizonInBaseQuery = true ∧
+    Gen.StoreChanges.sqlConditionalClauses = ["objectTypeFilter != \"\"", "options.Pagination.From != \"\"", "options.Pagination.PageSize > 0"] := by
+  refine ⟨?_, ?_, ?_, ?_⟩ <;> rfl
+
+theorem inv_increasing {s : StoreState} (hi : Inv s) : s.changes.Pairwise (fun a b => a.ulid < b.ulid) :=
+  increasing_of_ranks s.changes 0 (by rw [hi.ranks, List.range_eq_range'])
+
+/-- **paged_changes_horizon (memory).** After any history of memory writes with a clock that does not run backwards,
+    a client that reads the changelog through ReadChangesQuery (horizon `q` as the source hands it on) page by page —
+    any page size ≥ 1, following tokens until the empty page — receives exactly the changes of the type that are not
+    newer than now − q, each once, in log order.  Nothing newer than the horizon is handed out on any page. -/
+theorem paged_changes_horizon_mem (ceq : TupleRec → TupleRec → Bool) (h : List WriteReq)
+    (hr : ∀ r ∈ h, ReqOK r.dels r.writes) (ht : TimesOK 0 h) (typ : String) (now q ps : Nat) (hps : 1 ≤ ps) :
+    (followQuery (memChangesPage (runMem ceq {} h).changes typ now ps) Gen.StoreChanges.rcHorizonEveryPage q
+        ((runMem ceq {} h).changes.length + 1) none).map List.flatten
+      = some ((runMem ceq {} h).changes.filter (fun c => memTypeMatch typ c && decide (c.ts + q ≤ now))) := by
+  rw [tie_query_horizon_every_page.2.2.2.2.1]
+  obtain ⟨t', hts⟩ := runMem_ts ceq h {} 0 hr ht ⟨List.Pairwise.nil, by simp⟩
+  exact paged_horizon_mem _ hts.1 (inv_increasing (runMem_inv ceq h {} hr inv_empty)) typ now q ps hps
+
+/-- **paged_changes_horizon (sqlite)**, for every history with an arbitrary failure point on every write -/
+theorem paged_changes_horizon_sql (ceq : TupleRec → TupleRec → Bool) (h : List (WriteReq × Option Fail))
+    (hr : ∀ rf ∈ h, (rf.1.dels ++ rf.1.writes.map (·.key)).Nodup) (typ : String) (now q ps : Nat) (hps : 1 ≤ ps) :
+    (followQuery (sqlChangesPage (runSql ceq genCfg { committed := {} } h).committed.changes typ now ps)
+        Gen.StoreChanges.rcHorizonEveryPage q ((runSql ceq genCfg { committed := {} } h).committed.changes.length + 1) none).map List.flatten
+      = some ((runSql ceq genCfg { committed := {} } h).committed.changes.filter
+          (fun c => decide (c.ts + q ≤ now) && (typ == "" || c.tuple.objType == typ))) := by
+  rw [tie_query_horizon_every_page.2.2.2.2.1]
+  exact paged_horizon_sql _ (inv_increasing (runSql_inv ceq genCfg tie_changelog_in_txn.1 h { committed := {} } hr rfl inv_empty).2)
+    typ now q ps hps
+
+end PagedHorizon
+
+/-! ## timestamps and ULIDs are taken under the lock, hence the log is in ULID order -/
+
+section Stamps
+open OpenFGAVerif.Model.StoreChanges OpenFGAVerif.Proofs.StoreChanges
+
+/-- memory.Write: `s.mutexTuples.Lock()` precedes `now := timestamppb.Now()`, `entropy := ulid.DefaultEntropy()` and every
+    ulid.MustNew call; `now` is assigned once; every change record carries `Timestamp: now` and a ULID drawn from that
+    `now` and that entropy source -/
+theorem tie_mem_stamps_under_lock :
+    Gen.StoreChanges.memStampsUnderLock = true ∧ Gen.StoreChanges.memStampOrder = ["lock", "now", "entropy"] ∧
+    Gen.StoreChanges.memWriteStmtOrder = ["span", "defer-span", "lock", "defer-unlock", "now", "sanitize", "err-return", "records",
+      "entropy", "delete-loop", "write-loop", "assign-tuples", "return-nil"] ∧
+    Gen.StoreChanges.memNowExpr = "timestamppb.Now()" ∧ Gen.StoreChanges.memEntropyExpr = "ulid.DefaultEntropy()" ∧
+    Gen.StoreChanges.memChangeStamps = ["Timestamp: now | Ulid: ulid.MustNew(ulid.Timestamp(now.AsTime()), entropy)",
+      "Timestamp: now | Ulid: ulid.MustNew(ulid.Timestamp(now.AsTime()), entropy)"] := by
+  refine ⟨?_, ?_, ?_, ?_, ?_, ?_⟩ <;> rfl
+
+/-- sqlite.write draws its entropy source and every ULID after BeginTx and before Commit, from the time Write hands in
+    (`time.Now().UTC()`, evaluated by Write *before* the transaction begins — see the level note); the changelog rows'
+    inserted_at is the engine's clock at the INSERT -/
+theorem tie_sql_stamps_in_txn :
+    Gen.StoreChanges.sqlStampOrder = ["begin", "entropy", "ulid", "commit"] ∧
+    Gen.StoreChanges.sqlUlidExprs = ["ulid.MustNew(ulid.Timestamp(now), entropy)"] ∧
+    Gen.StoreChanges.sqlWriteNowArg = "time.Now().UTC()" ∧
+    Gen.StoreChanges.sqlInsertedAtExprs = ["sq.Expr(\"datetime('subsec')\")"] := by
+  refine ⟨?_, ?_, ?_, ?_⟩ <;> rfl
+
+/-- **changelog_in_ulid_order (memory).** With the stamps taken where the source takes them: for every schedule of
+    concurrent writers (wall clock not running backwards; the mutex serialises the locked sections) and every behaviour
+    of the random source, the change records are appended in strictly increasing ULID order and with non-decreasing
+    timestamps — the hypothesis "ULIDs increase in application order / timestamps sorted" of the history theorems
+    (`ranks_are_positions_mem`, `horizon_break_is_filter`), discharged for the memory backend by
+    `tie_mem_stamps_under_lock`. -/
+theorem changelog_in_ulid_order_mem (R : Nat → Nat × Nat) (hR : ∀ n, (R n).1 ≠ 0) (evs : List Timed)
+    (hclk : (evs.map (·.clock)).Pairwise (· ≤ ·)) (hfor : NoStaleForeign evs) :
+    Model.Paging.StrictSorted (·.1) Ulid.lt (runStamps Gen.StoreChanges.memStampsUnderLock R evs).log ∧
+    (runStamps Gen.StoreChanges.memStampsUnderLock R evs).log.Pairwise (fun a b => a.2 ≤ b.2) := by
+  rw [tie_mem_stamps_under_lock.1]
+  exact changelog_sorted_under_lock R hR evs hclk hfor
+
+/-- **paging_exactly_once (memory, concurrent writers).** … hence a client paging through ReadChanges with ULID tokens
+    receives every change record exactly once, in application order, whatever the interleaving of the writers. -/
+theorem paging_exactly_once_mem (R : Nat → Nat × Nat) (hR : ∀ n, (R n).1 ≠ 0) (evs : List Timed)
+    (hclk : (evs.map (·.clock)).Pairwise (· ≤ ·)) (hfor : NoStaleForeign evs) (ps : Nat) (hps : 1 ≤ ps) :
+    (Model.Paging.followChanges (·.1) Ulid.lt (runStamps Gen.StoreChanges.memStampsUnderLock R evs).log ps
+        ((runStamps Gen.StoreChanges.memStampsUnderLock R evs).log.length + 1) none).map List.flatten
+      = some (runStamps Gen.StoreChanges.memStampsUnderLock R evs).log := by
+  rw [tie_mem_stamps_under_lock.1]
+  exact paging_exactly_once_under_lock R hR evs hclk hfor ps hps
+
+/-- a schedule with two writers whose sample / lock order is crossed, three change records -/
+def evsEx : List Timed := [⟨.sample 1, 1⟩, ⟨.sample 2, 2⟩, ⟨.locked 2 [false, true, true], 2⟩, ⟨.foreign 2, 2⟩, ⟨.locked 1 [true], 3⟩]
+/-- non-vacuity of the hypotheses of `changelog_in_ulid_order_mem` -/
+example : (evsEx.map (·.clock)).Pairwise (· ≤ ·) ∧ NoStaleForeign evsEx ∧ (runStamps true (fun _ => (7, 0)) evsEx).log.length = 3 := by decide
+
+end Stamps
 
 /-! ## non-vacuity -/
 
